@@ -11,8 +11,8 @@ import (
 )
 
 const (
-	hpR0 = "b/r0"
-	hpR1 = "a/r1/s"
+	hpR0 = "a/r1"   // a recipe whose name is also a category prefix of the other recipe's name
+	hpR1 = "a/r1/s" // sorts after hpR0
 	hpX  = "x"
 	hpY  = "y"
 	hpU  = "u/v"
@@ -183,7 +183,8 @@ func Harness_app_pipeline() {
 	verifCover("ran")
 	// one command per path: forks inside one command (sign tests, sorting by amount) do not
 	// multiply with those of the others
-	hpCmds := []string{"register", "totals", "balance-single", "csv-log", "csv-resolved", "element-total", "quantity", "unresolved", "print"}
+	hpCmds := []string{"register", "totals", "balance-single", "csv-log", "csv-resolved", "element-total", "quantity", "unresolved", "print",
+		"register-template", "register-left-aligned", "register-totals-only", "register-no-totals", "summary"}
 	ci := verifBound("command", -1)
 	if ci < 0 {
 		ci = verifChoose("command", len(hpCmds))
@@ -200,8 +201,15 @@ func Harness_app_pipeline() {
 		}
 		return
 	}
-	if cmd != "register" {
-	} else if out, ok := run("register", "reg", "--use-old-reg-reporter"); ok {
+	regArgs := map[string][]string{
+		"register":              {"reg", "--use-old-reg-reporter"},
+		"register-template":     {"reg"},
+		"register-left-aligned": {"reg", "--internal-template-name=left-aligned"},
+		"register-totals-only":  {"reg", "--totals-only"},
+		"register-no-totals":    {"reg", "--no-totals"},
+	}
+	if args, isReg := regArgs[cmd]; !isReg {
+	} else if out, ok := run(cmd, args...); ok {
 		var regNames []string
 		var regNums []float64
 		perDay, _ := contribs()
@@ -209,6 +217,9 @@ func Harness_app_pipeline() {
 			cs := perDay[d]
 			k := 0
 			for _, f := range shared.HDistinct(raw) {
+				if cmd == "register-totals-only" {
+					break
+				}
 				regNames = append(regNames, f.Name)
 				regNums = append(regNums, f.Qty)
 				for k < len(cs) && cs[k].Food == f.Name {
@@ -217,12 +228,37 @@ func Harness_app_pipeline() {
 					k++
 				}
 			}
+			if cmd == "register-no-totals" {
+				continue
+			}
 			for _, t := range shared.HTotals(cs) {
 				regNames = append(regNames, t.Name)
 				regNums = append(regNums, t.Pos, t.Neg, t.Pos+t.Neg)
 			}
 		}
-		hpCheck("register", out, regNames, regNums)
+		hpCheck(cmd, out, regNames, regNums)
+	}
+
+	// ---- summary DATE: the totals (positive register) and the foods of exactly that day
+	if cmd != "summary" {
+	} else if out, ok := run("summary", "summary", dates[0]); ok {
+		var names []string
+		var nums []float64
+		perDay, _ := contribs()
+		for d, raw := range days {
+			if dates[d] != dates[0] {
+				continue
+			}
+			for _, t := range shared.HTotals(perDay[d]) {
+				names = append(names, t.Name)
+				nums = append(nums, t.Pos)
+			}
+			for _, f := range shared.HDistinct(raw) {
+				names = append(names, f.Name)
+				nums = append(nums, f.Qty)
+			}
+		}
+		hpCheck("summary", out, names, nums)
 	}
 
 	// ---- report totals: the signed period totals = the contributions of all days
@@ -286,7 +322,7 @@ func Harness_app_pipeline() {
 			v    float64
 		}
 		var want []row
-		for _, r := range []string{hpR1, hpR0} { // sorted: "a/r1/s" < "b/r0"
+		for _, r := range []string{hpR0, hpR1} { // sorted: "a/r1" < "a/r1/s"
 			for _, i := range ref.Rec[r] {
 				want = append(want, row{r, i.Name, i.Amt})
 			}
